@@ -42,7 +42,8 @@ LEVEL_TEXT = (
     "transcription of get_inds/get_can_dot/get_tensordot_axes/get_tensordot_perm/get_einsum_eq/"
     "compute_leaf_legs/extract_contractions yields an Admissible program for every network, complete tree, "
     "children-first order, prefer_einsum value and every per-node index order that is a permutation of the "
-    "node's legs (what sort_contraction_indices produces). The tie to /repo on every run: the REAL programs of "
+    "node's legs, in particular the one the model of sort_contraction_indices produces (sortInds_ok); "
+    "(3) run_order_irrelevant. The tie to /repo on every run: the REAL programs of "
     "extract_contractions are certified by the same Lean checker, and tree.contract on integer arrays is "
     "compared entry-by-entry and shape-by-shape with an independent dense evaluator and with the Lean "
     "interpreter and einsumSpec."
@@ -69,6 +70,8 @@ THEOREMS = [
     "Cotengra.C01.run_order_irrelevant_model",
     "Cotengra.C01.IsEinsum.at_pos",
     "Cotengra.childrenFirst_internal",
+    "Cotengra.childrenFirst_of_childrenEarlier",
+    "Cotengra.C01.model_extract_admissible_positional",
     "Cotengra.inds_ok",
     "Cotengra.sortInds_ok",
     "Cotengra.sumOver_fubini",
@@ -92,11 +95,12 @@ ASSUMPTIONS = [
     "sizes >= 1",
 ]
 RULE = ("random networks over index kinds {bond,hyper,dangling,out1,outk,all,repeated,batch} (scalars, outer "
-        "products, disconnected parts, size-1 dims included) x random/caterpillar/balanced trees x order in "
-        "{dfs, random callable, len} x prefer_einsum x sort_contraction_indices in {none, flops, size, root, leaves} "
-        "x implementation in {auto, cotengra, autoray}; thorough adds all trees of small nets; non-trivial = "
-        ">= 3 tensors and a hyper/repeated/dangling/scalar/disconnected/size1 feature or a tensordot+perm step; "
-        "distinct by content hash")
+        "products, disconnected parts, size-1 dims included) x random/caterpillar/balanced trees x 0-2 sliced "
+        "indices (remove_ind before the sort) x order in {dfs, random callable, len} x prefer_einsum x "
+        "sort_contraction_indices in {none, flops, size, root, leaves} x implementation in {auto, cotengra, "
+        "autoray}; corpus of regression inputs first; thorough adds all trees of small nets; non-trivial = >= 3 "
+        "tensors and (a hyper/repeated/dangling/scalar/disconnected/size1 feature or a tensordot+perm step or a "
+        "sliced index); distinct by content hash")
 BUDGET = {"quick": 600, "thorough": 3000}
 
 ORDERS = ("dfs", "callable", "len")
@@ -435,9 +439,7 @@ def run(ctx, drv):
         obj = json.load(open(f))
         obj = obj.get("replay", obj)
         ctx.count("corpus_replayed")
-        if not replay(ctx, obj):
-            ctx.violation({"site": "corpus", "file": os.path.basename(f)}, obj,
-                          "corpus case fails again: " + os.path.basename(f))
+        check_case(ctx, drv, obj["case"])
     ncases = 2500 if ctx.tier == "quick" else 80000
     skipped = 0
     done = 0
